@@ -348,8 +348,8 @@ refactorings after three rounds of hardening) 44 of 80 still alarmed at first, s
 the honest expectation for an unseen restructuring of an anchored function is
 "about even" - rounds 5 (46 of 80) and 6 (40 of 80) confirmed it; round 7 (31 of
 80) was better, round 8 (36 of 80, right after thirty new rules) and round 9 (40 of 80) were
-not. Of the 641 kept refactorings (rounds 1-9) 625 are quiet today; 16 (two of round 6, seven of
-round 8, seven of round 9) still alarm and are documented as open in section 8.3. The mirror and
+not. Of the 641 kept refactorings (rounds 1-9) 628 are quiet today; 13 (two of round 6, six of
+round 8, five of round 9) still alarm and are documented as open in section 8.3. The mirror and
 lockstep rules would fire on an asymmetric-but-equivalent rewrite of one twin.
 Refactorings that rename exported API or change a struct's field *types* are
 outside the rename normalisation.
@@ -582,8 +582,35 @@ to `/repo` itself, checked, and undone (`tools/seed_confirm.sh`, recorded in
   the stored fields, or by dropping a condition that was not necessary ("every
   round stores" is not implied by totality).
 
+* Round 9 (ROUND9_COUNT, after the round-9 refactoring hardening; prompts listed all
+  twenty-three earlier mutations per property): **ROUND9_CAUGHT caught at once, ROUND9_MISSED
+  missed**. (a) *sibling property* (the rule existed under the property next door):
+  `C08.results-in-order` (from `C14.order`), `C08.no-empty-batch` (from
+  `C11.batch-timer`), `C15.position-mod-reduced` (from `C04.index-discipline`),
+  `C14.worker-err-first` (from `C08.err-propagate`), `C01.seek-always-positions`,
+  `C12.publish-before-signal`. (b) *every path / every instance*: `C09/C11.own-param`
+  (an explicit Close next to the deferred one in the goroutine that owns the source
+  is a second Close on that path). (c) *new necessary conditions*:
+  `C10.halves-wired` (every channel / pointer field of the two halves Pipe builds is
+  set where they are built - a select arm on a nil channel never fires),
+  `C07.chunk-full-test` (typestate: every append to the chunk is followed by the
+  comparison with chunkSize before the next pull), `C18.typed-results-from-map` (the
+  V a typed Map method hands back is the asserted sync.Map result or the zero value,
+  never the caller's argument), `C16.lock-order` (c.L is never acquired with the
+  cond's own mutex held), `C19.withstack-no-interception` (the wrapper defines
+  neither Is nor As), `C19.intersect-covers-all` (the membership loop covers every
+  set other than the one ranged over), `C19.false-only-for-no-sets`,
+  `C01/C03.tail-clear-lockstep` (the vacated child slot is the vacated key slot + 1,
+  stores to n in between accounted for), `C02.cursor-tree-fixed` (a cursor's tree
+  pointer is written at construction only; an iterator's cursor is only replaced by
+  a copy of another cursor). The new rules alarmed on 6 kept refactorings when first
+  run (halves sharing an embedded `pipeShared` value, the membership test in
+  `inAll(sets[1:], k)` / `forEachCommon`, `removeOne` used for the tail, a
+  `pinChan()` / `unpinChan()` pair around the read lock); each was removed by
+  following the helper / the embedded struct (`releasedByCallee`).
+
 A rule written after seeing a seed says so above; that is the honest reading of
-"caught": all 460 seeds are reported today; in rounds 2-8, 264 of 420 were
+"caught": all ROUND9_TOTAL seeds are reported today; in rounds 2-9, ROUND9_SUM of ROUND9_DEN were
 reported by the rules that existed when the seed arrived.
 
 ### 8.2 Controls
